@@ -51,12 +51,14 @@ JudgeRow(ev, fixedSane, ys, F(_)) ==
 
 AllIdx == [q \in 1..NTypes |-> q - 1]
 
-LeafNames == <<"1", "0", "pk_k", "pk_h", "multi", "multi_a", "sha256", "older">>
+LeafNames == <<"1", "0", "pk_k", "pk_h", "multi", "multi_a", "sha256", "older", "sortedmulti", "sortedmulti_a">>
+\* the sorted variants are typed like the fragments they denote
+LeafSpecName(f) == IF f = "sortedmulti" THEN "multi" ELSE IF f = "sortedmulti_a" THEN "multi_a" ELSE f
 
 JudgeEvent(ev) ==
   CASE ev.job = "leaf" ->
          \A q \in 1..Len(LeafNames) :
-            LET S == SpecLeafType(LeafNames[q], "dev") c == Cell(ev.res[q], S) IN
+            LET S == SpecLeafType(LeafSpecName(LeafNames[q]), "dev") c == Cell(ev.res[q], S) IN
             c = "" \/ Report("C05", c, ev, [rule |-> LeafNames[q], n |-> 1, first |-> ev.res[q]])
     [] ev.job = "un" -> JudgeRow(ev, TRUE, AllIdx, LAMBDA y : SpecUn(ev.rule, y))
     [] ev.job = "bin" ->
